@@ -627,7 +627,7 @@ def build_variant(ctx, var, jobs):
         raise vlib.BuildError("library build failed for %s:\n%s" % (desc, out[-2500:]))
     return tree, vlib.get_harness(tree, "plain", "-no-pie" if cfg and "--enable-fat" in cfg else "")     # fat_entry.o uses absolute relocations
 
-INTERNAL_RE = re.compile(r"^(mpn_(kara|toom|mulmod|mullow|mulhigh|mulmid|dc_|sb_|inv_|redc|binvert|hgcd|matrix22|sqr_basecase|mul_basecase)|fft|sqrx_|mlx_|toom_|tdiv_q_|tdiv_qr_|dc_|sb_|hgcd_|as\\d?_|alias_)")
+INTERNAL_RE = re.compile(r"^(mpn_(powm_|powlo_|kara|toom|mulmod|mullow|mulhigh|mulmid|dc_|sb_|inv_|redc|binvert|hgcd|matrix22|sqr_basecase|mul_basecase)|fft|sqrx_|mlx_|toom_|tdiv_q_|tdiv_qr_|dc_|sb_|hgcd_|as\\d?_|alias_)")
 # ops whose Lean answer is computed from the DEFAULT build's regenerated tables (they say nothing about another table)
 TABLE_BOUND_OPS = {"mpn_mulmod_bnm1_next_size"}
 
